@@ -304,6 +304,7 @@ def _op_ivp(ctx, op, state):
     if oc[0] == "raise":
         ctx.violate("ivp-raise", "ivp", type(oc[1]).__name__, f"solve_poisson_ivp raised {oc[1]!r} on the shared grid / options")
         return
+    oc = ("ok", np.asarray(oc[1], dtype=float))
     ex = _potential(spec, state["pts0"], c)
     # the IVP solution covers r_interval only: points closer to the centre than its lower end are extrapolated
     r_lo = float((ctx.spec["grid"].get("r_interval") or (500.0, 1e-3))[1])
@@ -313,6 +314,52 @@ def _op_ivp(ctx, op, state):
         ctx.violate("accuracy", "ivp", which, f"IVP potential off by {acc:.3g}")
     ctx.probes.hit("ivp-on-shared-grid")
     ctx.log.add(ctx.step, "ivp", which, hash_array(oc[1]))
+
+
+LAP_BOUND = 1.5e-1  # interpolate_laplacian of the analytic potential vs -4 pi rho, relative to max(1, |4 pi rho|) (measured <= 1e-2; gross errors are O(1))
+
+
+def _op_laplacian(ctx, op, state):
+    """interpolate_laplacian on the shared grid: the Laplacian of the analytic potential is -4 pi rho; the operation is
+    exactly linear in its input; the returned function is evaluated twice (other points, one point at a time)."""
+    from grid.poisson import interpolate_laplacian
+
+    _, which = op
+    g, c = state["grid"], state["center"]
+    spec = _dens_spec(ctx, which)
+    d = ctx.spec["dens"]
+    pts = state["pts0"][2:].copy()  # generic points (not the near-centre / far ones: -4 pi rho is ~0 or steep there)
+    pts2 = state["pts_b0"][2:].copy()
+
+    def lap_of(sp):
+        return interpolate_laplacian(g, _potential(sp, np.asarray(g.points), c))
+
+    oc = _outcome(lambda: lap_of(spec))
+    if oc[0] == "raise":
+        ctx.violate("laplacian-raise", "laplacian", type(oc[1]).__name__, f"interpolate_laplacian raised {oc[1]!r}")
+        return
+    lap = oc[1]
+    v = np.asarray(lap(pts), dtype=float)
+    keep = v.copy()
+    v2 = np.asarray(lap(pts2), dtype=float)
+    if not np.array_equal(v, keep, equal_nan=True):
+        ctx.violate("result-overwritten", "laplacian", which, "the array returned by the Laplacian interpolant changed when it was evaluated again")
+    one = np.array([float(np.ravel(lap(pts[i:i + 1].copy()))[0]) for i in range(3)])
+    if not np.allclose(one, keep[:3], rtol=1e-10, atol=1e-12):
+        ctx.violate("one-point-vs-batch", "laplacian", which, f"Laplacian interpolant evaluated one point at a time differs from the batch evaluation by {np.max(np.abs(one - keep[:3])):.3g}")
+    for vv, pp in ((keep, pts), (v2, pts2)):
+        ex = -4 * np.pi * _density(spec, pp, c)
+        err = float(np.max(np.abs(vv - ex))) / max(1.0, float(np.max(np.abs(ex))))
+        ctx.stats["lap"] = max(ctx.stats.get("lap", 0.0), err)
+        if not np.isfinite(err) or err > LAP_BOUND:
+            ctx.violate("accuracy", "laplacian", which, f"interpolate_laplacian of the analytic potential differs from -4 pi rho by {err:.3g} (> {LAP_BOUND})")
+    if which == "combo":
+        l1, l2 = np.asarray(lap_of(d["rho1"])(pts)), np.asarray(lap_of(d["rho2"])(pts))
+        lin = float(np.max(np.abs(keep - d["a"] * l1 - d["b"] * l2))) / max(1.0, float(np.max(np.abs(keep))))
+        if lin > 1e-9:
+            ctx.violate("linearity", "laplacian", "combo", f"interpolate_laplacian is not linear in its input: residual {lin:.3g}")
+    ctx.probes.hit("laplacian-checked")
+    ctx.log.add(ctx.step, "laplacian", which, hash_array(keep))
 
 
 def _core_spec(z):
@@ -464,7 +511,7 @@ def _op_restart(ctx, op, state):
     ctx.log.add(ctx.step, "restart")
 
 
-OPS = {"solve": _op_solve, "ivp": _op_ivp, "robust": _op_robust, "tweak_params": _op_tweak_params, "perturb": _op_perturb, "arm": _op_arm, "heal": _op_heal, "restart": _op_restart}
+OPS = {"solve": _op_solve, "laplacian": _op_laplacian, "ivp": _op_ivp, "robust": _op_robust, "tweak_params": _op_tweak_params, "perturb": _op_perturb, "arm": _op_arm, "heal": _op_heal, "restart": _op_restart}
 
 
 class PoissonSeamEngine:
@@ -542,8 +589,10 @@ class PoissonSeamEngine:
             u = rng.random()
             if u < 0.55:
                 ops.append(["solve", rng.choice(["rho1", "rho2", "combo", "rho1"]), rng.choice(BEHAVIOURS), rng.randrange(1000), {"shared_params": rng.random() < 0.8, "grid_b": rng.random() < 0.25}])
-            elif u < 0.63:
+            elif u < 0.62:
                 ops.append(["ivp", rng.choice(["rho1", "rho2"])])
+            elif u < 0.66:
+                ops.append(["laplacian", rng.choice(["rho1", "rho2", "combo"])])
             elif u < 0.80:
                 ops.append(["robust", rng.choice(["core", "core", "core+smooth"]), rng.choice(ROBUST_ELEMENTS), rng.choice(BEHAVIOURS), rng.randrange(1000),
                             {"shared_params": rng.random() < 0.7, "split2": rng.random() < 0.15}])
@@ -618,7 +667,7 @@ class PoissonSeamEngine:
             return max([r.get("stats", {}).get(k, 0.0) for r in results] or [0.0])
 
         return {"max_accuracy_error_seen": mx("acc"), "max_spread_between_draws_seen": mx("spread"), "max_linearity_residual_over_tol_seen": mx("lin"),
-                "max_exact_core_error_seen": mx("core"), "max_bvp_mesh_nodes_seen": int(mx("nodes")), "mesh_cap": MAX_NODES, "bounds": {"accuracy": ACC_BOUND, "spread": SPREAD_BOUND, "linearity_over_tol": LIN_FACTOR, "exact_core": CORE_BOUND}}
+                "max_exact_core_error_seen": mx("core"), "max_laplacian_error_seen": mx("lap"), "max_bvp_mesh_nodes_seen": int(mx("nodes")), "mesh_cap": MAX_NODES, "bounds": {"accuracy": ACC_BOUND, "spread": SPREAD_BOUND, "linearity_over_tol": LIN_FACTOR, "exact_core": CORE_BOUND}}
 
     def list_paths(self, spec):
         return [("ops",)]
